@@ -170,7 +170,11 @@ class Cfg(object):
     """configuration of one case.  acn: auto_commit_every_n (0 = off), acs: time-triggered auto commit on/off,
     reset: 0 None / 1 EARLIEST / 2 LATEST, maxatt: request_retry_max_attempts, buf/maxbuf: buffer sizes (maxbuf -1 = None)"""
     FIELDS = ("group", "acn", "acs", "reset", "maxatt", "buf", "maxbuf", "gen", "cap", "fuel")
-    DELAYS = {3: (1.0, 1.5), 7: (0.5, 1.7), 14: (0.25, 3.0)}     # cap index -> (init, max) of the delay sequence
+    # delay profile key -> (init, max) of the delay sequence.  Keys 3/7/14 equal the index at which the sequence reaches its
+    # maximum under the library's factor; 100: init == max; 101: init > max (accepted by the constructor: the first delay
+    # exceeds the maximum); 102: non-dyadic pair.  No profile equals the module defaults 0.1 / 30.0 ON PURPOSE: a consumer
+    # that used REQUEST_RETRY_MIN_DELAY / REQUEST_RETRY_MAX_DELAY instead of its own settings must differ.
+    DELAYS = {3: (1.0, 1.5), 7: (0.5, 1.7), 14: (0.25, 3.0), 100: (1.5, 1.5), 101: (2.0, 1.0), 102: (0.3, 7.1)}
 
     def __init__(self, group=1, acn=0, acs=0, reset=0, maxatt=0, buf=4096, maxbuf=-1, gen=-1, cap=7, fuel=60):
         self.group, self.acn, self.acs, self.reset, self.maxatt, self.buf, self.maxbuf, self.gen, self.cap, self.fuel = \
@@ -223,6 +227,7 @@ class Driver(object):
         self.INIT_DELAY, self.MAX_DELAY = cfg.DELAYS[cfg.cap]
         self.trace = []
         self.clock = Clock()
+        self.delays = []             # (step, timer kind, float passed to callLater)
         self.float_bad = []          # float mismatches (index-vs-recurrence), checked bit for bit
         self.float_checks = 0
         self.plan = []
@@ -243,6 +248,7 @@ class Driver(object):
         def callLater(delay, f, *a, **kw):
             dc = orig_callLater(delay, f, *a, **kw)
             kind = drv.timer_kind(dc)
+            drv.delays.append((drv.step_no, kind, delay))
             if kind == T_RETRY:
                 idx = -1 if delay == 0 else drv.delay_index(delay)
             elif kind == T_COMMIT:
@@ -372,6 +378,8 @@ class Driver(object):
             self.api(lambda: consumer.stop(), stops=True)
         elif inside == 2:
             self.api_commit()
+        elif inside == 3:
+            self.api(self.go_shutdown)
         if result == 0:
             return None
         if result == 1:
@@ -406,6 +414,12 @@ class Driver(object):
                 self.out(tag, *ids, 1, v(r), *extra)
             return None
         d.addBoth(cb)
+
+    def go_shutdown(self):
+        d = self.consumer.shutdown()
+        d.addBoth(lambda r: (setattr(self, "_running", False) if not (hasattr(r, "value") and fk_of(r.value) == X_RESTOP) else None, r)[1])
+        self.watch(d, OUT_SHUTDOWN_D)
+        return 0
 
     def api_commit(self):
         self.ncommit += 1
@@ -502,12 +516,7 @@ class Driver(object):
         elif t == EV_STOP:
             self.api(lambda: c.stop(), stops=True)
         elif t == EV_SHUTDOWN:
-            def go():
-                d = c.shutdown()
-                d.addBoth(lambda r: (setattr(self, "_running", False) if not (hasattr(r, "value") and fk_of(r.value) == X_RESTOP) else None, r)[1])
-                self.watch(d, OUT_SHUTDOWN_D)
-                return 0
-            self.api(go)
+            self.api(self.go_shutdown)
         elif t == EV_COMMIT:
             self.api_commit()
         elif t == EV_PLAN:
@@ -577,8 +586,19 @@ def ev_line(ev):
     return [t]
 
 
+def fuel_for(events):
+    """interpreter fuel for a case: the model recurses once per processor block and per queued commit waiter where the
+    code loops, so the fuel a case needs is linear in its input size"""
+    n = 60 + len(events)
+    for ev in events:
+        if ev[0] == EV_FETCH_OK:
+            n += 2 * len(ev[1])
+    return n
+
+
 def case_line(cfg, events, op=1):
     c = [op] + cfg.line()
+    c[1 + Cfg.FIELDS.index("fuel")] = max(cfg.fuel, fuel_for(events))      # fuel derived from the input size
     for ev in events:
         c += ev_line(ev)
     return c
@@ -646,7 +666,7 @@ def gen_cfg(rnd, **fixed):
         maxbuf = buf
     c = Cfg(group=group, acn=rnd.choice([0, 0, 1, 2, 3]) if group else 0, acs=rnd.choice([0, 1]) if group else 0,
             reset=rnd.choice([0, 1, 2]), maxatt=rnd.choice([0, 0, 0, 1, 2, 3, 5]), buf=buf, maxbuf=maxbuf,
-            gen=rnd.choice([-1, 0, 17]), cap=rnd.choice([3, 7, 7, 14]), fuel=60)
+            gen=rnd.choice([-1, 0, 17]), cap=rnd.choice([3, 7, 7, 14, 100, 101, 102]), fuel=60)
     for k, val in fixed.items():
         setattr(c, k, val)
     return c
